@@ -1,6 +1,7 @@
 package main
 
 import (
+	"strings"
 	"fmt"
 	"go/constant"
 	"go/token"
@@ -1113,7 +1114,16 @@ func (x *Exec) makeIface(st *State, v Val, from, to types.Type) (Val, error) {
 		payload = App("box.Str", SInt, v.One())
 	case KScalarNamed:
 		payload = App("box.Int", SInt, v.One())
-	case KStruct, KSlice, KFunc, KArray, KFloat:
+	case KSlice:
+		// a boxed slice: a fresh identity whose header (pointer, offset, length, capacity) can be read back
+		payload = u.Fresh("box", SInt)
+		u.Assume(Eq(App("root", SInt, payload), IntLit(0)))
+		for i, c := range v.S {
+			fn := fmt.Sprintf("unbox.sl%d.%s", i, sortTag(c.So))
+			u.DeclareFun(fn, []Sort{SInt}, c.So)
+			u.Assume(Eq(App(fn, c.So, payload), c))
+		}
+	case KStruct, KFunc, KArray, KFloat:
 		// boxed composite: an opaque fresh identity (contents not recoverable)
 		payload = u.Fresh("box", SInt)
 		u.Assume(Eq(App("root", SInt, payload), IntLit(0)))
@@ -1142,7 +1152,15 @@ func (x *Exec) unbox(st *State, iface Val, to types.Type) (Val, error) {
 		return scalar(to, Eq(App("unbox.Int", SInt, p), IntLit(1))), nil
 	case KString:
 		return scalar(to, App("unbox.Str", SStr, p)), nil
-	case KStruct, KSlice, KFunc, KArray, KFloat:
+	case KSlice:
+		v := u.FreshVal("unboxed", to)
+		for i, c := range v.S {
+			fn := fmt.Sprintf("unbox.sl%d.%s", i, sortTag(c.So))
+			u.DeclareFun(fn, []Sort{SInt}, c.So)
+			v.S[i] = App(fn, c.So, p)
+		}
+		return v, nil
+	case KStruct, KFunc, KArray, KFloat:
 		v := u.FreshVal("unboxed", to)
 		return v, nil
 	}
@@ -1191,4 +1209,10 @@ func (x *Exec) typeAssert(fr *Frame, st *State, t *ssa.TypeAssert) error {
 	x.oblig("assert-type", t.Pos(), fmt.Sprintf("type assertion to %s succeeds", types.TypeString(t.AssertedType, func(p *types.Package) string { return p.Name() })), st.PC, okd)
 	fr.regs[t] = res
 	return nil
+}
+
+// sortTag: a name fragment for a sort (used to keep the unboxing functions of differently sorted components apart).
+func sortTag(so Sort) string {
+	r := strings.NewReplacer("(", "", ")", "", " ", "_").Replace(string(so))
+	return r
 }
